@@ -1,9 +1,15 @@
 """C20 - The bandwidth limit is respected and transparent to the data."""
-from specs import ratelimit
+from specs import ratelimit, local, s3, b2
 
 LEVEL = 'proof'
-UNITS = ratelimit.units('C20')
+# the adapters move the payload in pieces of the chunk size the command passes (premise d <= L/4 reaches the limiter)
+UNITS = ratelimit.units('C20') + local.units('C20')[1:3] + s3.method_units('C20')[6:7] + s3.method_units('C20')[8:9] + b2.units('C20')[1:3]
 BOUNDED = [
+    {'name': 'C20.e2e.window', 'script': 'bounded/c20_e2e.py', 'timeout': 900,
+     'bound': 'the four rate-limited commands (snapshot, restore, upload-objects, download-objects) on a recording local backend under a virtual '
+              'clock (exact for concurrency 1; for concurrency 2, 3 elapsed time is over-estimated, i.e. a weaker check): L = 4096 (thorough: also '
+              '40000) B/s, ~12 virtual seconds of payload per command in objects of 3/4 L, plain (thorough: also encrypted); every window of '
+              'transfers at the backend <= L*T + L*PAUSE_LIMIT + N*L/4, data intact'},
     {'name': 'C20.sim.window', 'script': 'bounded/c20_sim.py', 'timeout': 900,
      'bound': 'real limiter under a virtual clock and a deterministic seeded scheduler (one thread runs at a time, FIFO locks, optional '
               'preemption at clock readings): 10 (thorough: 200) schedules of 1..4 streams, reads/writes, request sizes <= L/4 fixed or '
